@@ -213,6 +213,9 @@ func (d *Decoder) readData() (interface{}, error) {
 		return d.readString(int32(tag))
 	case dateTag(tag):
 		return d.readDate(int32(tag))
+	case tag == _binaryChunkLegacy && int(tag-_objectLenTagMin) < len(d.clsDefList):
+		// 0x62 is the instance tag of class #2 once that class is defined, not a legacy binary chunk
+		return d.ReadLenTagObject(tag)
 	case binaryTag(tag):
 		return d.readBinary(int32(tag))
 	case refTag(tag):
